@@ -360,30 +360,88 @@ func c11(c *Ctx) {
 			}
 			return def
 		}
-		for _, e := range stored {
-			call, _ := unparen(e).(*ast.CallExpr)
+		// is e — directly, through single-definition locals, or as the (non-error) result of a helper of the package — the value
+		// replaceInvalidUTF8Sequences(n, url.PathUnescape(raw))?
+		var decoded func(f *FuncInfo, e ast.Expr, depth int) (bool, string)
+		decoded = func(f *FuncInfo, e ast.Expr, depth int) (bool, string) {
+			def1 := func(v types.Object) ast.Expr {
+				var def ast.Expr
+				n := 0
+				inspectNoLit(f.Body(), func(nd ast.Node) bool {
+					if as, ok := nd.(*ast.AssignStmt); ok {
+						for i, l := range as.Lhs {
+							if sameVar(info, l, v) {
+								n++
+								if len(as.Rhs) == len(as.Lhs) {
+									def = as.Rhs[i]
+								} else if len(as.Rhs) == 1 {
+									def = as.Rhs[0]
+								}
+							}
+						}
+					}
+					return true
+				})
+				if n != 1 {
+					return nil
+				}
+				return def
+			}
+			resolveCall := func(x ast.Expr) *ast.CallExpr {
+				if cc, ok := unparen(x).(*ast.CallExpr); ok {
+					return cc
+				}
+				if v := objOf(info, x); v != nil {
+					if d := def1(v); d != nil {
+						cc, _ := unparen(d).(*ast.CallExpr)
+						return cc
+					}
+				}
+				return nil
+			}
+			call := resolveCall(e)
 			if call == nil {
-				if v := objOf(info, e); v != nil {
-					if d := defOf(v); d != nil {
-						call, _ = unparen(d).(*ast.CallExpr)
+				return false, "stored value " + exprStr(e) + " is not the result of replaceInvalidUTF8Sequences"
+			}
+			if callToDecl(info, repl)(call) && len(call.Args) == 2 {
+				src := resolveCall(call.Args[1])
+				if src == nil || !isCallTo(info, src, "net/url.PathUnescape") {
+					return false, "the sanitiser's input is not url.PathUnescape(…)"
+				}
+				return true, ""
+			}
+			if depth > 0 {
+				if h := bx.declByObj(callee(info, call)); h != nil && h != f {
+					n, okAll, w := 0, true, ""
+					inspectNoLit(h.Body(), func(nd ast.Node) bool {
+						rs, isRet := nd.(*ast.ReturnStmt)
+						if !isRet || len(rs.Results) == 0 {
+							return true
+						}
+						// error returns (last result not nil) carry no value
+						if len(rs.Results) > 1 && !isNilIdent(info, rs.Results[len(rs.Results)-1]) {
+							return true
+						}
+						n++
+						if ok, why := decoded(h, rs.Results[0], depth-1); !ok {
+							okAll, w = false, "in "+h.Name+": "+why
+						}
+						return true
+					})
+					if n > 0 && okAll {
+						return true, ""
+					}
+					if w != "" {
+						return false, w
 					}
 				}
 			}
-			if call == nil || !callToDecl(info, repl)(call) || len(call.Args) != 2 {
-				good, why = false, "stored value "+exprStr(e)+" is not the result of replaceInvalidUTF8Sequences"
-				continue
-			}
-			arg := call.Args[1]
-			var src *ast.CallExpr
-			if cc, ok := unparen(arg).(*ast.CallExpr); ok {
-				src = cc
-			} else if v := objOf(info, arg); v != nil {
-				if d := defOf(v); d != nil {
-					src, _ = unparen(d).(*ast.CallExpr)
-				}
-			}
-			if src == nil || !isCallTo(info, src, "net/url.PathUnescape") {
-				good, why = false, "the sanitiser's input is not url.PathUnescape(…)"
+			return false, "stored value " + exprStr(e) + " is not the result of replaceInvalidUTF8Sequences"
+		}
+		_ = defOf
+		for _, e := range stored {
+			if ok, w := decoded(fn, e, 1); !ok {
+				good, why = false, w
 			}
 		}
 		c.Check(good, "R6", "baggage|"+sp.fn+"|"+sp.typ+".value ← replaceInvalidUTF8Sequences(n, PathUnescape(raw))", at(bx.M, fn.Pos()), "parsed values are unescaped and valid UTF-8", "a parsed value can hold invalid UTF-8 or stay percent-encoded: "+why)
